@@ -1066,6 +1066,9 @@ pub fn c17(ctx: &Ctx) -> Report {
         Timing { holes: vec![false], accepting_v6: false, connect_timeout_ms: 150, far_deadline: true },
         Timing { holes: vec![false, false], accepting_v6: false, connect_timeout_ms: 120, far_deadline: true },
         Timing { holes: vec![true, false, false], accepting_v6: false, connect_timeout_ms: 250, far_deadline: true },
+        // and with the usual long connect timeout: the race interval stays 200 ms under a far deadline
+        Timing { holes: vec![false], accepting_v6: false, connect_timeout_ms: 3000, far_deadline: true },
+        Timing { holes: vec![true, false], accepting_v6: false, connect_timeout_ms: 3000, far_deadline: true },
     ];
     let mut timing_run = 0u64;
     let mut timing_skipped = 0u64;
